@@ -346,3 +346,84 @@ Definition ns_paths_today : list (list lev) :=
   [ [LLock "mutex"; LSafeCall "data" "Get"; LUnlock "mutex"];
     [LLock "mutex"; LSafeCall "data" "Get"; LSafeCall "data" "Register"; LUnlock "mutex"];
     [LSafeCall "data" "Get"] ].
+
+(* ------------------------------------------------------------------------------------ *)
+(* (e) the histories of the interleaving machine itself.  A registry program is given by kinds
+   (register k v / get k / clone) with the event list each operation executes; the machine runs
+   [gop] of them.  A ghost observer (it never influences the machine) stamps every step with a
+   time 1, 2, 3, ..., remembers when each operation was invoked, appends an event when an
+   operation performs its access to the object obj (a register: its write; a lookup / snapshot:
+   its read, with what the object held at that very step) and fills in the return time when the
+   operation returns.  [hist_of] is the recorded history in the format of the oracle (hev). *)
+Inductive gkind := GReg (k : string) (v : Z) | GGet (k : string) | GClone.
+Definition gop (x : gkind * list lev) : @op rmap obs :=
+  match fst x with
+  | GReg k v => reg_op (snd x) k v
+  | GGet k => get_op (snd x) k
+  | GClone => clone_op (snd x)
+  end.
+Definition is_lin (g : gkind) (e : lev) : bool :=
+  match g, e with
+  | GReg _ _, LWrite _ => true
+  | GGet _, LRead _ => true
+  | GClone, LRead _ => true
+  | _, _ => false
+  end.
+Definition lin_rop (g : gkind) (d : rmap) : rop :=
+  match g with GReg k v => RReg k v | GGet k => RGet k (lookup k d) | GClone => RClone d end.
+
+Record gentry := mkge { ge_t : nat; ge_i : nat; ge_op : rop; ge_inv : Z; ge_ret : option Z }.
+Record ghost := mkgh { gh_now : Z; gh_inv : nat -> Z; gh_ents : list gentry }.
+Definition ghost0 : ghost := mkgh 1 (fun _ => 0%Z) [].
+
+Definition kind_at (kp : list (list (gkind * list lev))) (t i : nat) : option gkind :=
+  match nth_error kp t with
+  | Some l => match nth_error l i with Some x => Some (fst x) | None => None end
+  | None => None
+  end.
+
+Definition gstep (kp : list (list (gkind * list lev))) (obj : string)
+                 (s : @state rmap obs) (t : nat) (g : ghost) : ghost :=
+  let now := gh_now g in
+  let tick := mkgh (now + 1)%Z (gh_inv g) (gh_ents g) in
+  match nth_error (s_threads s) t with
+  | None => g
+  | Some th =>
+      let idx := List.length (t_log th) in
+      match t_cur th with
+      | None => mkgh (now + 1)%Z (fun u => if Nat.eqb u t then now else gh_inv g u) (gh_ents g)
+      | Some (_, [], _) =>
+          mkgh (now + 1)%Z (gh_inv g)
+               (map (fun e => if Nat.eqb (ge_t e) t && Nat.eqb (ge_i e) idx
+                              then mkge (ge_t e) (ge_i e) (ge_op e) (ge_inv e) (Some now) else e) (gh_ents g))
+      | Some (_, e :: _, _) =>
+          match kind_at kp t idx, s_data s obj with
+          | Some gk, Some d =>
+              if is_lin gk e
+              then mkgh (now + 1)%Z (gh_inv g) (gh_ents g ++ [mkge t idx (lin_rop gk d) (gh_inv g t) None])
+              else tick
+          | _, _ => tick
+          end
+      end
+  end.
+
+Fixpoint irun (kp : list (list (gkind * list lev))) (obj : string)
+              (s : @state rmap obs) (g : ghost) (sched : list nat) : option (@state rmap obs * ghost) :=
+  match sched with
+  | [] => Some (s, g)
+  | t :: r => match step s t with Some s' => irun kp obj s' (gstep kp obj s t g) r | None => None end
+  end.
+
+(* what a recorded lookup / snapshot event says the operation observed *)
+Definition obs_of (ro : rop) : option obs :=
+  match ro with RGet _ res => Some (OKey res) | RClone d => Some (OSnap d) | RReg _ _ => None end.
+
+Definition hist_of (g : ghost) : list (rop * Z * Z) :=
+  map (fun e => (ge_op e, ge_inv e, match ge_ret e with Some r => r | None => 0%Z end)) (gh_ents g).
+
+(* what is asked of a registry operation besides the lock discipline: it reads and writes only
+   the object obj, and a lookup / snapshot does not write at all *)
+Definition is_write (e : lev) : bool := match e with LWrite _ => true | _ => false end.
+Definition kind_body_ok (obj : string) (x : gkind * list lev) : bool :=
+  forallb (fun e => match e with LWrite ob | LRead ob => String.eqb ob obj | _ => true end) (snd x) &&
+  match fst x with GReg _ _ => true | _ => negb (existsb is_write (snd x)) end.
